@@ -1064,6 +1064,38 @@ def r44_epoch_delegation(ctx):
                       "the second count is split into %s before it is added "
                       "(the split must then be exact for negative and "
                       "fractional counts)" % sorted(kws), ("C18",))
+            # ... and unrounded: the count may be fractional
+            from ..flow import single_def
+            pname = g.params[0] if g.params else None
+            for k in n.keywords:
+                if k.arg != "seconds" or pname is None:
+                    continue
+
+                def narrowing(e, depth=0):
+                    out = []
+                    for x in ast.walk(e):
+                        if isinstance(x, ast.Call) and U(x.func).split(
+                                ".")[-1] in ("int", "round", "floor",
+                                             "trunc", "ceil", "abs"):
+                            out.append(U(x)[:40])
+                        elif isinstance(x, ast.BinOp) and isinstance(
+                                x.op, (ast.FloorDiv, ast.Mod)):
+                            out.append(U(x)[:40])
+                        elif isinstance(x, ast.Name) and x.id != pname \
+                                and depth < 3:
+                            v = single_def(g.node, x.id)
+                            if v is not None:
+                                out += narrowing(v, depth + 1)
+                    return out
+                nar = narrowing(k.value)
+                rep.check(not nar, rule, ctx.fkey(g, None, "unrounded"),
+                          g.loc(n), "the count reaches Duration(seconds=) "
+                          "without being rounded",
+                          "get_timepoint_from_seconds_since_unix_epoch "
+                          "passes its count through %s before adding it: a "
+                          "fractional Unix time (time.time(), 1234567890.5, "
+                          "the string '0.5' from strptime %%s) loses its "
+                          "fraction or is refused" % nar, ("C18", "C17"))
 
 
 # ------------------------------------------------------------------- R45
@@ -1625,6 +1657,81 @@ def r49_week_year_span(ctx):
                       "and the last days of December to the next" %
                       sorted(offs), P)
     _r49_years_walked(ctx, rep, rule, P + ("C15",))
+    _r49_match_names_year(ctx, rep, rule, P + ("C15", "C17"))
+
+
+def _r49_match_names_year(ctx, rep, rule, P):
+    """Where the calendar->week conversion finds the date by walking the
+    days of calendar year Y and comparing month and day, the match also
+    says that Y is the date's year: the walk over the start year passes the
+    same month and day again a year later (or earlier)."""
+    from ..flow import path_conds, single_def
+    g = ctx.try_func("data.get_week_date_from_calendar_date")
+    if g is None or len(g.params) < 3:
+        return
+    py, pm, pd = g.params[:3]
+
+    def pairs(conds):
+        """{(a, b)} for every conjunct a == b, tuples taken apart"""
+        out = set()
+
+        def eq(a, b, depth=0):
+            for x in (a, b):
+                if isinstance(x, ast.Name) and depth < 2:
+                    v = single_def(g.node, x.id)
+                    if isinstance(v, ast.Tuple):
+                        other = b if x is a else a
+                        return eq(v, other, depth + 1)
+            if isinstance(a, ast.Tuple) and isinstance(b, ast.Tuple) and \
+                    len(a.elts) == len(b.elts):
+                for x, y in zip(a.elts, b.elts):
+                    eq(x, y, depth)
+                return
+            out.add((U(a), U(b)))
+            out.add((U(b), U(a)))
+
+        def add(t, pol):
+            if isinstance(t, ast.UnaryOp) and isinstance(t.op, ast.Not):
+                return add(t.operand, not pol)
+            if isinstance(t, ast.BoolOp) and isinstance(t.op, ast.And) \
+                    and pol:
+                for v in t.values:
+                    add(v, pol)
+                return
+            if isinstance(t, ast.Compare) and pol and all(
+                    isinstance(o, ast.Eq) for o in t.ops):
+                seq = [t.left] + list(t.comparators)
+                for a, b in zip(seq, seq[1:]):
+                    eq(a, b)
+        for t, pol in conds:
+            add(t, pol)
+        return out
+    for lp in walk_no_nested(g.node):
+        if not (isinstance(lp, ast.For) and isinstance(
+                lp.iter, ast.Call) and U(lp.iter.func) ==
+                "iter_months_days" and lp.iter.args and isinstance(
+                    lp.target, ast.Tuple) and len(lp.target.elts) == 2):
+            continue
+        walked = U(lp.iter.args[0])
+        im, idd = [U(x) for x in lp.target.elts]
+        for r in ast.walk(lp):
+            if not isinstance(r, ast.Return):
+                continue
+            eqs = pairs(path_conds(r))
+            if (im, pm) not in eqs or (idd, pd) not in eqs:
+                continue
+            rep.check(
+                (walked, py) in eqs, rule,
+                ctx.fkey(g, r, "match-names-year:%s" % walked), g.loc(r),
+                "a month-and-day match in the walk over %s also requires "
+                "%s == %s" % (walked, walked, py),
+                "get_week_date_from_calendar_date takes the first day of "
+                "the walk over %s whose month and day equal the date's, "
+                "without requiring %s == %s: a week-year that starts in "
+                "late December of the year before passes e.g. 30 December "
+                "twice, so 2020-12-30 (2020-W53-3) is found a year early, "
+                "as day 1 of the week-year (W01-1)" % (walked, walked, py),
+                P)
 
 
 def _r49_years_walked(ctx, rep, rule, P):
